@@ -7,7 +7,7 @@ HERE = os.path.dirname(os.path.dirname(os.path.abspath(__file__)))
 PY = '/venv/bin/python'
 
 TB = ('trusted base: the reference model in bbv/refmodel (RISC-V decoder / ISS / operand sets written from the unprivileged '
-      'spec, cross-validated against llvm-mc-14 by tools/validate_refmodel.py), CPython, and the monitors in bbv/monitors.py '
+      'spec, cross-validated against llvm-mc-14 by bbv/selfcheck.py (python -m bbv.selfcheck, the setup_cmd)), CPython, and the monitors in bbv/monitors.py '
       'installed by rebinding module attributes of the freshly imported working tree')
 
 CHECKS = {
